@@ -175,7 +175,7 @@ class RejectsMixin:
             "type_add_str", "type_bad_cast", "pred_nonbool", "window_in_filter", "agg_in_filter", "window_in_summarize",
             "window_in_on", "nested_agg", "nested_window", "summarize_plain_col", "marker_in_mutate", "marker_nested", "full_join_ineq",
         )  # fmt: skip
-        if needs_int and step.get("int") is None:
+        if (needs_int or rule in ("foreign_ref", "unknown_C")) and step.get("int") is None:
             return "no int column"
         if rule == "type_sum_str" and step.get("str") is None:
             return "no str column"
